@@ -323,14 +323,15 @@ pub struct TrkCfg {
     pub min_conf: f32,
     pub constraints: Option<Vec<(usize, f32)>>,
     pub vis: VisOpts,
+    pub kalman_w: (f32, f32),
 }
 
 impl TrkCfg {
     pub fn new(kind: Kind) -> TrkCfg {
-        TrkCfg { kind, shards: 1, voting_shards: 1, history: 1, max_idle: 2, pos: Pos::Iou(0.3), min_conf: 0.05, constraints: None, vis: VisOpts::default() }
+        TrkCfg { kind, shards: 1, voting_shards: 1, history: 1, max_idle: 2, pos: Pos::Iou(0.3), min_conf: 0.05, constraints: None, vis: VisOpts::default(), kalman_w: (1.0 / 20.0, 1.0 / 160.0) }
     }
     pub fn json(&self) -> serde_json::Value {
-        serde_json::json!({"kind":self.kind.name(),"shards":self.shards,"voting_shards":self.voting_shards,"history":self.history,"max_idle":self.max_idle,"positional":format!("{:?}",self.pos),"min_conf":self.min_conf,"constraints":self.constraints,"visual":format!("{:?}",self.vis)})
+        serde_json::json!({"kind":self.kind.name(),"shards":self.shards,"voting_shards":self.voting_shards,"history":self.history,"max_idle":self.max_idle,"positional":format!("{:?}",self.pos),"min_conf":self.min_conf,"constraints":self.constraints,"visual":format!("{:?}",self.vis),"kalman_weights":[self.kalman_w.0,self.kalman_w.1]})
     }
     fn pos_type(&self) -> PositionalMetricType {
         match self.pos {
@@ -359,7 +360,9 @@ impl TrkCfg {
             .visual_minimal_area(v.min_area)
             .visual_minimal_own_area_percentage_use(v.own_use)
             .visual_minimal_own_area_percentage_collect(v.own_collect)
-            .positional_min_confidence(self.min_conf.max(0.01));
+            .positional_min_confidence(self.min_conf.max(0.01))
+            .kalman_position_weight(self.kalman_w.0)
+            .kalman_velocity_weight(self.kalman_w.1);
         if let Some(c) = self.stc() {
             o = o.spatio_temporal_constraints(c);
         }
@@ -381,8 +384,8 @@ fn sort_dets(d: &[Det]) -> Vec<(Universal2DBox, Option<i64>)> {
 impl AnyTrk {
     pub fn new(c: &TrkCfg) -> AnyTrk {
         match c.kind {
-            Kind::Sort => AnyTrk::Sort(Sort::new(c.shards, c.history, c.max_idle, c.pos_type(), c.min_conf, c.stc(), 1.0 / 20.0, 1.0 / 160.0)),
-            Kind::BatchSort => AnyTrk::BSort(BSortT::new(c.shards, c.voting_shards, c.history, c.max_idle, c.pos_type(), c.min_conf, c.stc(), 1.0 / 20.0, 1.0 / 160.0)),
+            Kind::Sort => AnyTrk::Sort(Sort::new(c.shards, c.history, c.max_idle, c.pos_type(), c.min_conf, c.stc(), c.kalman_w.0, c.kalman_w.1)),
+            Kind::BatchSort => AnyTrk::BSort(BSortT::new(c.shards, c.voting_shards, c.history, c.max_idle, c.pos_type(), c.min_conf, c.stc(), c.kalman_w.0, c.kalman_w.1)),
             Kind::VisualSort => AnyTrk::VSort(VisualSort::new(c.shards, &c.vopts())),
             Kind::BatchVisualSort => AnyTrk::BVSort(BatchVisualSort::new(c.shards, c.voting_shards, &c.vopts())),
         }
